@@ -79,3 +79,54 @@ Theorem C19_label_names_determined_by_values :
   (forall n1 n2 v, In (n1, v) outcome_type_values -> In (n2, v) outcome_type_values -> n1 = n2).
 Proof. exact label_names_determined_by_values. Qed.
 Print Assumptions C19_label_names_determined_by_values.
+
+(* the entry point: each call of ProcessSshdLogEntry runs ProcessEntry ONCE on the record handed over (a retry loop, a
+   second call, a guard are not understood by the generator): the counters move once per line and event *)
+Theorem C19_entry_from_source : forall pid msg, entry_args gen_entry (pid, msg) = Some (pid, msg).
+Proof. exact entry_from_source. Qed.
+Print Assumptions C19_entry_from_source.
+
+Theorem C19_entry_context_is_callers : en_lookup "ctx" (en_config gen_entry) = Some FromCtxParam.
+Proof. exact entry_context_is_callers. Qed.
+Print Assumptions C19_entry_context_is_callers.
+
+(* the body of ProcessSshdLogEntry is ONE call of ProcessEntry on a fresh per-line configuration whose result is
+   returned: no guard / early return, loop, defer, derived context or write to the long-lived processor (the generator
+   has no form for them: the generated file would not type-check) *)
+Theorem C19_entry_single_call :
+  en_callee gen_entry = "ProcessEntry" /\ en_result_returned gen_entry = true /\
+  map fst (en_config gen_entry) = ["ctx"; "logins"; "logEntry"; "nodeName"; "machineID"; "when"; "pid"; "eventW"; "metrics"] /\
+  en_lookup "when" (en_config gen_entry) = Some FromTimeNow.
+Proof. exact entry_single_call. Qed.
+Print Assumptions C19_entry_single_call.
+
+(* The long-lived processor (struct SshdProcessorer, NewSshdProcessor; regenerated on every run) has no field beyond
+   those the per-line configuration sets afresh for every line, is built by a single return of that struct from the
+   constructor's parameters, and is the only implementation of the entry point in its package: no state is carried
+   from one line to the next, so identical lines (sshd prints them: every wrong password on one connection) are
+   processed identically. *)
+Theorem C19_processor_keeps_no_state :
+  ct_fields gen_constructor = map fst (en_config gen_entry) /\
+  ct_entry_impls gen_constructor = ["SshdProcessorer"] /\
+  ct_result gen_constructor = "SshdProcessor" /\
+  map fst (ct_inits gen_constructor) = ["ctx"; "logins"; "nodeName"; "machineID"; "eventW"; "metrics"].
+Proof. exact processor_keeps_no_state. Qed.
+Print Assumptions C19_processor_keeps_no_state.
+
+(* ---------- the message the processor is given is the syslog line's own text ----------
+   Gen/PureFuncs.v is REGENERATED on every run by translating the Go bodies of SyslogIngester.ParseSyslogMessage and of
+   the argument preparation in SyslogIngester.Process into Gallina over executable models of the strings package
+   (Lib/GoStrings.v; None = the operation panics).  The hand-written [parse] / [process_line] of Model/Syslog.v ARE those
+   translations, for every line: the record is split at the first blank run after the PID token and nothing in the
+   message is collapsed, decoded, unescaped or otherwise rewritten on its way to the processor (a call of any function
+   the translator does not know makes the generated file ill-typed and re-opens these obligations). *)
+From AM Require Import Lib.GoStrings Gen.PureFuncs Proofs.PureFuncsTie Model.Syslog.
+Theorem C19_parse_from_source : forall e,
+  option_map entry_pair (gen_parse_syslog_message e) = Some (Syslog.parse e).
+Proof. exact parse_syslog_from_source_pair. Qed.
+Print Assumptions C19_parse_from_source.
+
+Theorem C19_process_line_from_source : forall line,
+  option_map entry_pair (gen_process_line line) = Some (process_line line).
+Proof. exact process_line_from_source. Qed.
+Print Assumptions C19_process_line_from_source.
